@@ -315,6 +315,39 @@ def r5(R5, cfg, F):
                          'the handler of CacheMessage::%s (%s) does not modify the dependency graph: forgotten keys stay reloadable' % (v, hp), F.body(hp).loc() if F.body(hp) else None)
         if n == 0:
             R5.missing(cfg, 'public destroying operations of ' + adt_path)
+    # remove / take: the reloader is told exactly when an entry was really removed
+    for p in ('cache::AssetCache::<S>::remove', 'cache::AssetCache::<S>::take'):
+        b = F.body(p)
+        if not b:
+            R5.missing(cfg, p)
+            continue
+        fg = [c for c in b.calls() if c.callee and c.callee.best == 'cache::AssetCache::<S>::forget_asset']
+        rm = [c for c in b.calls() if c.callee and c.callee.best in ('cache::AssetMap::remove', 'cache::AssetMap::take')]
+        ok = len(fg) == 1 and len(rm) == 1
+        why = 'shape: one AssetMap::remove / take and one forget_asset expected'
+        if ok:
+            if rm[0].callee.name == 'remove':
+                tg = [(x, t) for x, t in common.call_truth_guards(b, fg[0].bb) if x is rm[0]]
+                ok = tg == [(rm[0], True)]
+                guards = [x for x in common.guards_of(b, fg[0].bb) if any(y is rm[0] for y, _ in common.call_truth_guards(b, fg[0].bb))]
+                skip = b.reachable([0], removed_blocks=[fg[0].bb])
+                # with `removed` true the notification is not skipped: the only way around it is the false edge of that test
+                sw = [bb for bb, t in b.terms() if t['k'] == 'switch' and fg[0].bb in b.reachable([bb]) and not all(fg[0].bb in b.reachable([d]) or d == fg[0].bb for d, _ in b.edges(bb))]
+                ok = ok and len(sw) == 1
+            else:
+                ok = common.guarded_by_variant(b, fg[0].bb, [['call@bb%d' % rm[0].bb]], 1)
+                g = [x for x in common.guards_of(b, fg[0].bb) if x[3][0] == 'discr' and common.deep_path(b, x[3][1]) == ['call@bb%d' % rm[0].bb]]
+                ok = ok and common.inevitable(b, g, fg[0].bb)
+            why = 'the reloader must be told (forget_asset) exactly when the map reported that an entry was removed'
+        R5.check(ok, cfg, p, 'forgets-iff-removed', '%s: %s' % (p.split('::')[-1], why), b.loc())
+    for p in ('cache::AssetMap::remove', 'local_cache::AssetMap::remove'):
+        b = F.body(p)
+        if not b:
+            R5.missing(cfg, p)
+            continue
+        tk = [c for c in b.calls() if c.callee and c.callee.name == 'take' and 'AssetMap' in c.callee.best]
+        ok = len(tk) == 1 and common.returns_is_variant(b, 1) == ['call@bb%d' % tk[0].bb]
+        R5.check(ok, cfg, p, 'remove-answers-was-present', 'AssetMap::remove must answer true exactly when take(id, type) found an entry (the answer decides whether the reloader is told)', b.loc())
 
 
 def mutates_graph(F, fn):
